@@ -154,6 +154,16 @@ CHECKS.update({
             SYMNOTE + "scikit-learn's TransformerMixin.fit_transform is fit(X).transform(X).", "DESIGN.md §4 C18, §5 K2"),
 })
 
+CHECKS.update({
+    "C09": (True, "inter-procedural effect/ownership analysis over all landscape operators and tools, CFG dominance of the "
+                  "lazy-cache stores, symbolic execution of the unary operators, site rules for guards/padding/re-sampling",
+            CLAUSE + "Decides AR-EFFECT, AR-OWN, AR-LAZY, AR-GUARD, AR-UNARY, AR-PAD, AR-SNAP. Declines: correctness of the "
+            "slope merge (sum_slopes / pos_to_slope_interp / slope_to_pos_interp) of exact landscapes for coincident abscissae "
+            "and sign changes.",
+            SYMNOTE + "Result objects may share un-mutated depth lists with operands (reported, not a violation).",
+            "DESIGN.md §4 C09"),
+})
+
 NOT_APPLICABLE = {
     "C05": "soundness of the mGH lower/upper bounds is a theorem about computed values for every graph pair and RNG "
            "draw; no ownership, ordering, wiring or algebraic-type argument implies it (DESIGN.md §6); nearby "
